@@ -25,7 +25,7 @@ Inductive citems (Pc Ph : list token -> Prop) (l : language) : nat -> list token
     citems Pc Ph l (off + 1 + length words + length cond + 1 + length body + 1) r ds2 ->
     citems Pc Ph l off (kw :: words ++ cond ++ o :: body ++ c :: r) (ds1 ++ ds2)
 | ci_init off pre o flat c post semi r ds :
-    pre <> [] -> forallb plain pre = true -> is_lbrace o = true -> forallb plain flat = true -> is_rbrace c = true ->
+    forallb plain pre = true -> is_lbrace o = true -> forallb plain flat = true -> is_rbrace c = true ->
     inner post -> is_symbol semi semicolon = true ->
     citems Pc Ph l (off + length pre + 1 + length flat + 1 + length post + 1) r ds ->
     citems Pc Ph l off (pre ++ o :: flat ++ c :: post ++ semi :: r) ds
@@ -178,7 +178,7 @@ Section TwoSelections.
   Proof.
     induction 1 as [off|off s r ds Hs Hr IH
                    |off kw words cond o body c r ds1 ds2 Hkw Hwords Hcond HPc Ho Hc Hb IHb Hr IHr
-                   |off pre o flat c post semi r ds Hne Hpre Ho Hflat Hc Hpost Hsemi Hr IH
+                   |off pre o flat c post semi r ds Hpre Ho Hflat Hc Hpost Hsemi Hr IH
                    |off pre hd nm_off hend_off o body c r ds1 ds2 Hpre Hhd HPh Ho Hc Hb IHb Hflat Hr IHr]; intros B.
     - exists [], []. split; [apply Seg_nil|]. split; [apply Seg_nil | constructor].
     - destruct (IH B) as (h1 & h2 & S1 & S2 & HP). exists h1, h2.
@@ -393,7 +393,7 @@ Theorem citems_no_drop Pc Ph l off ts ds : citems Pc Ph l off ts ds ->
 Proof.
   induction 1 as [off|off s r ds Hs Hr IH
                  |off kw words cond o body c r ds1 ds2 Hkw Hwords Hcond Hnt Ho Hc Hb IHb Hr IHr
-                 |off pre o flat c post semi r ds Hne Hpre Ho Hflat Hc Hpost Hsemi Hr IH
+                 |off pre o flat c post semi r ds Hpre Ho Hflat Hc Hpost Hsemi Hr IH
                  |off pre hd nm_off hend_off o body c r ds1 ds2 Hpre Hhd HPh Ho Hc Hb IHb Hflat Hr IHr]; intros P B HP HL.
   - constructor.
   - replace (P ++ (s ++ r) ++ B) with ((P ++ s) ++ r ++ B) by (norm_app; reflexivity).
